@@ -861,6 +861,17 @@ class FnCtx:
             out += self.cond_facts(d, vals, other, excl, sb)
         if edge is not None:
             out += self.edge_facts(*edge)
+        elif b not in self.ft.cfg.loops():
+            # a join all of whose ways in but one are dead in this context is reached along that one way only: what holds
+            # on it holds here (the arms of a `match` on ranges share their fall-through blocks)
+            preds = [p_ for p_ in self.ft.cfg.pred[b] if p_ in self.ft.cfg.reach]
+            if len(preds) > 1:
+                try:
+                    live = [p_ for p_ in preds if self.edge_live(p_, b)]
+                except RecursionError:
+                    live = preds
+                if len(live) == 1:
+                    out += self.facts_at(live[0], (live[0], b))
         out += self.counter_facts(b)
         self._facts_memo[key] = out
         return out
